@@ -325,6 +325,19 @@ func RunMarginHistories(c Ctx, rep *report.Report, rng *chain.Rng, n, steps int,
 					an, ax := new(big.Int).Div(pool.NB, d), new(big.Int).Div(pool.EB, d)
 					res = e.AddLiquidity(u, tok, an, ax)
 					cm = Msg{Tag: 2, Signer: uid, A: tid, X: an, Y: ax}
+				} else if lp0 := lpOf(cpre, tid, e.AcctID[e.Users[0].Addr.String()]); lp0 != nil && lp0.Units.Sign() > 0 && rng.Intn(2) == 0 {
+					what = "clp RemoveLiquidityUnits"
+					// by units: a sliver, or a share of the creator's units
+					un := new(big.Int).Div(lp0.Units, big.NewInt(int64(2+rng.Intn(5000))))
+					if rng.Intn(3) == 0 {
+						un = new(big.Int).Div(lp0.Units, big.NewInt(1000000000))
+					}
+					if un.Sign() == 0 {
+						un = big.NewInt(1)
+					}
+					cs = e.Users[0]
+					res = e.RemoveLiquidityUnits(cs, tok, un)
+					cm = Msg{Tag: 4, Signer: e.AcctID[cs.Addr.String()], A: tid, X: un}
 				} else {
 					what = "clp RemoveLiquidity"
 					// up to the whole of the creator's share: large removals run into the pool-health gate
